@@ -15,6 +15,16 @@ def queries(tier):
                         bounds={'elements contained before the operation': m, 'priorities': 'arbitrary 32-bit (ties included)', 'pre-state': 'ANY heap satisfying the representation invariant (solver-chosen shape and priorities)',
                                 'collapse/sibling loops': m + 3},
                         what='inductive step: ' + what + ' on an arbitrary valid heap of %d elements -> invariant, exact membership change, top()/empty() observations' % m))
+    # wide child lists: the two-pass collapse pairs siblings, so 4, 5, 6 children (even/odd, >= two pairs) need 5-8 elements; the fully
+    # solver-chosen shape does not reach a verdict there, so the collapsed element is assumed to have >= k children (rest solver-chosen)
+    # measured (16 cores busy): pop.m5.wide4 81 s, pop.m6.wide5 264 s, remove.m6.wide4 1065 s; the m=7 queries had no verdict after 18 min -> optional, thorough only
+    wide = [('harness_pop', 'pop', 5, 4, False), ('harness_pop', 'pop', 6, 5, False)]
+    if tier != 'quick': wide += [('harness_remove', 'remove', 6, 4, False), ('harness_pop', 'pop', 7, 6, True), ('harness_remove', 'remove', 7, 5, True)]
+    for (entry, nm, m, k, opt) in wide:
+        qs.append(Q('%s.m%d.wide%d' % (nm, m, k), 'c08', 'c08_heap.c', entry, defs={'M': m, 'WIDE': k}, unwind=m + 3, checks='none', inline_witness=True, timeout=3000 if tier != 'quick' else 900, mem_gb=6, optional=opt,
+                    bounds={'elements contained before the operation': m, 'shape family': 'the element whose child list is collapsed (root for pop, x for remove) has at least %d children; everything else solver-chosen' % k,
+                            'priorities': 'arbitrary 32-bit (ties included)', 'collapse/sibling loops': m + 3},
+                    what='inductive step on the wide-child-list family: %s with a collapsed child list of >= %d siblings among %d elements' % (nm, k, m)))
     return qs
 def validation_queries(tier):
     return [Q('script.validate', 'c08', 'c08_heap.c', 'harness_script', defs={'M': 7})]
